@@ -189,10 +189,12 @@ func (p *StreamPool) getConnection(k key, end bool, ts time.Time, tcp *layers.TC
 	if end || conn != nil {
 		return conn, half, rev
 	}
+	verifYield("getConnection.miss")
 	s := p.factory.New(k[0], k[1], tcp, ac)
 	if s == nil {
 		return nil, nil, nil
 	}
+	verifYield("getConnection.created")
 	p.mu.Lock()
 	defer p.mu.Unlock()
 	conn, half, rev = p.newConnection(k, s, ts)
